@@ -308,7 +308,7 @@ esl_mixgev_invcdf(double p, ESL_MIXGEV *mg)
   x2 = esl_vec_DMin(mg->mu, mg->K);
   x1 = x2 - 1.;
   do {				/* bracket, left side */
-    x1 = x1 + 2.*(x2-x1);
+    x1 = x1 - 2.*(x2-x1);
     f1 = esl_mixgev_cdf(x1, mg);
   } while (f1 > p);
   do {				/* bracket, right side */
@@ -323,7 +323,7 @@ esl_mixgev_invcdf(double p, ESL_MIXGEV *mg)
     if      (fm > p) x2 = xm;
     else if (fm < p) x1 = xm;
     else return xm;		/* unlikely case of fm==p */
-  } while ( (x2-x1)/(x1+x2+1e-9) > tol);
+  } while ( (x2-x1) > tol * (fabs(x1)+fabs(x2)+1e-9));
 
   xm = (x1+x2) / 2.;
   return xm;
